@@ -25,7 +25,7 @@ CHECKS = {
     "C14": dict(
         technique="deterministic simulation: stream-mode sessions over the simulated network with a 128-bit big-endian counter model; packet i must equal the library's one-shot under N+i",
         category="exploration",
-        text="Same simulated network as C02, judged for nonce discipline: starting nonces are drawn with every carry-chain length 0..16 (including wrap at 2^128); incremental C sessions must show nonce field = model and ciphertext = one-shot under N+i; C++ objects must encrypt under the model nonce, advance after a successful decrypt and stay put after a failed one (observed behaviourally through retransmits across carries); set_counter/set_nonce(len 0..24) and the C helpers are ordinary session operations. Sampling over histories and fault sequences.",
+        text="Same simulated network as C02, judged for nonce discipline: starting nonces are drawn with every carry-chain length 0..16 (including wrap at 2^128); incremental C sessions must show nonce field = model (between packets, and value-before + 1 right after every start()) and ciphertext = one-shot under N+i; C++ objects must encrypt under the model nonce, advance after a successful decrypt and stay put after a failed one (observed behaviourally through retransmits across carries); set_counter/set_nonce(len 0..24) and the C helpers are ordinary session operations. Sampling over histories and fault sequences.",
         note="Trusted: unsigned __int128 counter model; the library's one-shot functions as substrate; C++ objects whose very first packet is wrong are left to C17.",
         design="§3 W1, §4 C14"),
     "C15": dict(
@@ -43,7 +43,7 @@ CHECKS = {
     "C17": dict(
         technique="deterministic simulation: seeded life-cycle histories of the C++ cipher/hash/xof objects (every construction and keying path, every overload) mirrored call by call through the C API; the harness translation unit is the compile obligation",
         category="exploration",
-        text="(1) Programs: asim/worlds/cppobj.cpp instantiates every public member and overload of the 12 cipher classes, hash/hasha, xof/xofa, xof[a]_with_output_length<1,17,32,64> and the byte-array helpers; if it stops compiling with an error located in a /repo header the check reports a C17 violation whose replay file holds the compiler log. (2) Histories: up to 3 cipher objects and 3 hash/xof objects live at once and go through default/key/NULL-key/saved-key/zero-length construction, set_key (full, zero length with NULL and non-NULL pointer, saved ISAP key, undocumented length -> false), set_nonce(0..24)/set_counter, encrypt/decrypt through all four overloads incl. tampered and too-short inputs, save_key, randomize_key, clear, copy construction, assignment (incl. self), reset, pad, destroy; every output must equal the C function for the model (key, nonce) or the mirrored C state, failed byte_array decrypts must leave no byte derived from the rejected packet, a crash counts as a violation. The same translation unit is compiled and run against the ASCON_NO_STL configuration (the library's own reference-counted byte_array); half of the byte_array calls reuse one long-lived output array while a by-value copy of the previous result is kept, and the copy must still hold what the C function returned.",
+        text="(1) Programs: asim/worlds/cppobj.cpp instantiates every public member and overload of the 12 cipher classes (through ascon::aead* and on objects of each concrete class type), hash/hasha, xof/xofa, xof[a]_with_output_length<1,17,32,64> and the byte-array helpers; if it stops compiling with an error located in a /repo header the check reports a C17 violation whose replay file holds the compiler log. (2) Histories: up to 3 cipher objects and 3 hash/xof objects live at once and go through default/key/NULL-key/saved-key/zero-length construction, set_key (full, zero length with NULL and non-NULL pointer, saved ISAP key, undocumented length -> false), set_nonce(0..24)/set_counter, encrypt/decrypt through all four overloads incl. tampered and too-short inputs, save_key, randomize_key, clear, copy construction, assignment (incl. self), reset, pad, destroy; every output must equal the C function for the model (key, nonce) or the mirrored C state, failed byte_array decrypts must leave no byte derived from the rejected packet, a crash counts as a violation. The same translation unit is compiled and run against the ASCON_NO_STL configuration (the library's own reference-counted byte_array); half of the byte_array calls reuse one long-lived output array while a by-value copy of the previous result is kept, and the copy must still hold what the C function returned.",
         note="Trusted: the C API of the same library as reference (C01..C05 not claimed), for the byte-array helper functions too; g++ as the compiler that decides 'compiles when used'.",
         design="§3 W8, §4 C17"),
     "C19": dict(
@@ -85,7 +85,7 @@ CHECKS = {
     "C06": dict(
         technique="deterministic simulation: histories on ISAP pre-computed keys (packets, save, restart from the saved image into clean or dirty memory, free) with KAT-validated reference models of ISAP v2.0 and the SIV construction as oracle",
         category="exploration",
-        text="History part (the simulation target): up to 3 interleaved pre-computed ISAP keys go through seeded sequences of encrypt/decrypt packets (incl. tampered), save to a byte image (the only durable state), restart (object discarded, reloaded from the image, possibly elsewhere and into dirty memory) and free; the raw key object must be bit-identical before and after every encrypt/decrypt/save, save(load(s)) == s, and every later packet must equal what the original key produces; the same histories also run in the acquire/release-checking configuration (an abort of the checker after a forged packet means the next packet on that key has no output). Specification part: every ISAP and SIV output is compared with reference models written over the harness' own reference permutation (validated against embedded known answers) and self-tested against the repository's KAT files at start-up - no library code is part of the oracle; equal SIV inputs give equal outputs. The specification part is model-based input sampling and is labelled so.",
+        text="History part (the simulation target): up to 3 interleaved pre-computed ISAP keys go through seeded sequences of encrypt/decrypt packets (incl. tampered), save to a byte image (the only durable state), restart (object discarded, reloaded from the image, possibly elsewhere and into dirty memory) and free; the raw key object must be bit-identical before and after every encrypt/decrypt/save, save(load(s)) == s, and every later packet must equal what the original key produces; the same histories also run in the acquire/release-checking configuration (an abort of the checker after a forged packet means the next packet on that key has no output). Specification part: every ISAP and SIV output is compared with reference models written over the harness' own reference permutation (validated against embedded known answers) and self-tested against the repository's KAT files at start-up - no library code is part of the oracle; equal SIV inputs give equal outputs, also when plaintext and ciphertext buffers are neighbours in one arena (0..19 bytes apart, either order). The specification part is model-based input sampling and is labelled so.",
         note="Trusted: the two reference models and the reference permutation (a model that fails its own known answers => exit 2, never a VIOLATION); the repository's KAT files.",
         design="§3 W8, §4 C06"),
     "C07": dict(
